@@ -163,6 +163,10 @@ def gen_schema(rng, options=None):
 				body.append(f'\t{count} = {rng.choice(SIZE_MEMBER_TYPES)}')
 			if rng.random() < 0.3:
 				body.append('\t@is_byte_constrained')
+			if rng.random() < 0.3:
+				# an aligned array in an aligned or unaligned holder: the alignment of the ARRAY says nothing about the unaligned mark of
+				# its element type
+				body.append(f'\t@alignment({rng.choice([4, 8])}{rng.choice(["", "", ", not pad_last", ", pad_last"])})')
 			body.append(f'\t{fresh("items")} = array({element}, {count})')
 		if rng.random() < 0.3:
 			body.append(f'\t{fresh("tail")} = array({rng.choice(["ElemA", "uint8"])}, 4)')
